@@ -25,6 +25,14 @@ type c13Outer struct {
 	C  chan int         `valid:"exist"`
 }
 
+// unexported fields that hold values: a rule set that names them must not make the library read them
+type c13H struct {
+	A      string `valid:"required"`
+	hidden int
+	secret []string
+	flag   bool
+}
+
 // a map whose key type is a NAMED string type (reflect.MapOf cannot build one at run time)
 type c13K string
 
@@ -90,6 +98,7 @@ func hostileValue(r *gal.Rng) (interface{}, string) {
 		{&c13G{S1: []string{"a"}, S2: []string{"a"}, M1: map[string]int{"a": 1}, M2: map[string]int{"a": 1}, F1: func() {}, F2: func() {}, E1: c13T{A: "x"}, E2: c13T{A: "x"}, I1: []int{1}, I2: []int{1}}, "groups-uncomparable-equal"},
 		{&c13G{S1: []string{"a"}, S2: []string{"b"}, M1: map[string]int{"a": 1}, M2: map[string]int{"a": 2}, E1: c13T{A: "x"}, E2: c13T{A: "y"}, I1: map[string]int{"a": 1}, I2: []int{1}}, "groups-uncomparable-differ"},
 		{map[string][]string{"a": {"x"}, "b": {"x"}}, "map-of-slices"},
+		{&c13H{A: "x", hidden: 5, secret: []string{"a", "a"}, flag: true}, "unexported-with-values"},
 		{map[c13K]string{"a": "abc", "b": ""}, "map-named-key"}, {[]map[c13K]int{{"a": 3}}, "slice-map-named-key"}, {&map[c13K]string{"a": "x"}, "ptr-map-named-key"},
 		{"http://h/p?a=%zz", "bad-escape-url"}, {"http://h/p?a=1&a=2&=3&b", "odd-url"}, {"?", "qmark"}, {"", "empty-string"}, {"http://h/p?a=%", "trunc-escape"},
 	}
@@ -158,6 +167,9 @@ func runC13(c *Ctx) error {
 			if r.Bool() || i < len(dir) {
 				call.HasUnsc = true
 				call.Unscoped = map[string]string{"A": strings.Join(rules, ","), "P": hostileRule(r), "L": hostileRule(r), "": hostileRule(r)}
+				if vname == "unexported-with-values" {
+					call.Unscoped = map[string]string{"hidden": r.Pick([]string{"in=(1/2)", "eq=4", "noeq=5", "to=1~3"}), "secret": r.Pick([]string{"unique", "ints", "ge=3"}), "flag": "in=(false)", "A": strings.Join(rules, ",")}
+				}
 			}
 			if r.Chance(20) {
 				call.Local = map[string]string{"to": "", "nosuch": "L1"} // a nil function under a built-in name
